@@ -145,6 +145,32 @@ TABLE = {
             "containment and exported geometry three-valued (bands declared in the spec).",
             "TLC, lattice geometry, shapely `covers` as projection of the exported geometry; known finding: exported "
             "circle has half the radius"),
+    "C01": ("Codec.tla / Xsd2020a.tla / MC_Codec.tla / Trace_Codec.tla",
+            "A scenario is an abstract descriptor (enumeration tokens, presence flags, value kinds, number tokens); which "
+            "leaves the XML format carries, the reader defaults and the expected read-back descriptor are TLA+ operators "
+            "written from the statement and the XSD; TLC enumerates descriptors per component exhaustively (every enum "
+            "member, every presence subset of the signal flags, role x shape x state kind x value kind x prediction kind) "
+            "plus mixed draws and checks idempotence, identity on carried leaves, preservation of populated attributes and "
+            "consistency of the contract with the transcribed XSD. Every descriptor is built through public constructors, "
+            "written and read back at precisions 1..12; real leaves are classified by exact fractions (|x'-x| < 10^-d) in "
+            "the projection and TLC names the first differing leaf path.",
+            "TLC, the descriptor <-> object mapping (gamma / alpha), fractions for tolerance classes; known finding: "
+            "traffic-sign virtual flag (pinned tests encode the wrong value)"),
+    "C02": ("Codec.tla / MC_Codec.tla / Trace_Codec.tla",
+            "Same descriptor space as C01 with the protobuf carriage table (incl. horn, virtual, first occurrences, offset / "
+            "direction / active, interval and region values) cross-checked against the generated *_pb2 descriptors; plus "
+            "default-argument objects (constructors called with required arguments only). Real leaves must be bit-identical "
+            "(struct.pack comparison in the projection), absent optional data must stay absent; TLC validates the read-back "
+            "descriptor leaf by leaf.",
+            "TLC, gamma / alpha, struct.pack bit comparison"),
+    "C03": ("Xsd2020a.tla / Codec.tla / MC_Codec.tla / Trace_Codec.tla",
+            "The 2020a XSD is transcribed as TLA+ data (content models as sequence / all / choice automata, all enumerations, "
+            "lexical classes, id key and ref keyref constraints); TLC checks that the abstract document the contract demands "
+            "is accepted. Every written file of the C01 descriptor space plus extreme-magnitude number classes x precisions "
+            "1..12 is turned into element events and validated by TLC against the automaton (naming the violated rule) and by "
+            "lxml against the shipped XSD; a disagreement between the two validators is a machinery failure; the library's "
+            "own reader must accept the file.",
+            "TLC, the XSD transcription (cross-validated against lxml on every document)"),
 }
 
 PENDING_REASON = "check not built yet in this round (specification module planned in DESIGN.md section 4); not claimed"
